@@ -259,7 +259,8 @@ def main():
     tier = H.tier()
     chk.bounds = ["N a real symbol, N >= 2 (identities between rational expressions in N and the psi atoms: they hold for complex N)",
                   "nf in {3,4,5,6} enumerated ({3,4,5} with the FHMRUVV N3LO variant, which refuses nf=6), orders (k,2) for k = 1..4 "
-                  "(all lower QED orders are sub-grids), both N3LO variants, N3LO variation tuples: %r" % (_variations(tier),)]
+                  "(all lower QED orders are sub-grids), both N3LO variants, N3LO variation tuples: %r" % (_variations(tier),),
+                  "quick tier: grids (3,2) for nf 3..6, (2,2) for nf=4, (4,2) FHMRUVV for nf 3,4,5 and (4,2) eko approximations for nf=4 only; thorough: every order (i,j), i<=4, j<=2, nf 3..6"]
     chk.bounds.append("FHMRUVV N3LO variation tuples with slot 3 (qq) == slot 4 (nsp) only (the eko approximations have no nsp variation): the FHMRUVV singlet uses the qq slot for both the non-singlet-plus and the "
                       "pure-singlet part of gamma_qq by design, and the QED grid's Sdelta entry follows the singlet")
     chk.out_of_claim = ["numerical values of the entries (C25/C20); polarised and time-like sectors have no QED grids",
@@ -270,17 +271,20 @@ def main():
     chk.assumptions = ["float literals are read as the simplest rational that rounds to them"]
     var = _variations(tier)
     for nf in (3, 4, 5, 6):
-        orders = [(2, 2), (3, 2)] if tier == "quick" else [(1, 1), (1, 2), (2, 1), (2, 2), (3, 1), (3, 2)]
-        if tier == "quick" and nf in (3, 6):
-            orders = [(3, 2)]
+        orders = [(3, 2)] if tier == "quick" else [(1, 1), (1, 2), (2, 1), (2, 2), (3, 1), (3, 2)]
+        if tier == "quick" and nf == 4:
+            orders = [(2, 2), (3, 2)]
         for o in orders:
             chk.case("grid.nf%d.o%d%d" % (nf, o[0], o[1]), case_grid, nf=nf, order=o, fh=True, variation=ZERO7)
         for fh in (True, False):
             if fh and nf == 6:
                 continue
             vs = var[fh]
-            if tier == "quick" and nf != 4:
-                vs = vs[:1]
+            if tier == "quick":
+                # the eko N3LO approximations cost ~2 min per (4,2) grid in mode a: quick tier runs them for nf=4 only
+                if not fh and nf != 4:
+                    continue
+                vs = vs[:1] if (nf != 4 or not fh) else vs
             for i, v in enumerate(vs):
                 chk.case("grid.nf%d.o42.%s.v%d" % (nf, "fhmruvv" if fh else "as4", i), case_grid, nf=nf, order=(4, 2), fh=fh, variation=v)
     E.load()
